@@ -405,6 +405,16 @@ thread_local! {
     pub static COEFF_CTL: std::cell::Cell<bool> = const { std::cell::Cell::new(false) };
 }
 
+/// `interpret` with the decompose linkage (`recompose/coeff` table) switched on for every other
+/// program length: a pure function of the program, so that replay and shrinking stay deterministic.
+pub fn interpret_linked<C: Fc>(prog: &Prog, excl: Excl) -> (Built<C>, bool) {
+    let on = prog.recompose_npo && C::D > 1 && prog.stmts.len() % 2 == 1;
+    COEFF_CTL.with(|f| f.set(on));
+    let b = interpret::<C>(prog, excl);
+    COEFF_CTL.with(|f| f.set(false));
+    (b, on)
+}
+
 /// Interpret `prog` against a fresh builder and the reference semantics.
 pub fn interpret<C: Fc>(prog: &Prog, excl: Excl) -> Built<C> {
     let excl = if exclude_known() {
